@@ -103,7 +103,8 @@ def integral_matching_reference_stretch(x, y, x_ref, y_ref, fixed_points_in_x=No
             raise ValueError("Size of 'fixed_points_indices_in_x' cannot be larger than the number of points in 'x'")
 
     if fixed_points_indices_in_x is not None:
-        fixed_points_indices_in_x = np.unique(fixed_points_indices_in_x)
+        # platform integers: `end + 1` further down wraps around at the maximum of a narrow index type (int8 127)
+        fixed_points_indices_in_x = np.unique(np.asarray(fixed_points_indices_in_x).astype(np.intp))
         fixed_points_in_x = x.take(fixed_points_indices_in_x)
         fixed_points_in_x_ref = x_ref.take(
             find_closest_element_indices_to_values(x_ref, fixed_points_in_x, strategy='closest'))
